@@ -2,6 +2,8 @@
 
 package contentstream
 
+import "bytes"
+
 // H_C02_contentstream_any_bytes: the content-stream parser returns a value or an error for every byte string;
 // it never panics, never recurses without bound and never loops forever.
 //
@@ -17,5 +19,20 @@ func H_C02_contentstream_any_bytes() {
 	ops, err := NewParser(b).Parse()
 	_ = ops
 	_ = err
+	vReach("end")
+}
+
+// H_C02_contentstream_nesting_is_bounded: the parser's recursion does not grow with the nesting an input asks for.
+//
+//symgo:harness prop=C02 kernel=contentstream.Parse-nesting hang=1 depth=1500 loop=100000 steps=200000000
+//symgo:desc content stream made of k opening brackets - "[" or "<<" or "[<<" alternating (enumerated) - with k = 2000 in the engine: the call depth stays below 1500 (an implementation that recurses once per level needs 4000 frames); the candidate is replayed natively with k = 30 million, where unbounded recursion exhausts the Go stack
+func H_C02_contentstream_nesting_is_bounded() {
+	k := 2000
+	if !vIsSymbolic() {
+		k = 30000000
+	}
+	unit := []string{"[", "<<", "[<<"}[vAnyIntIn(0, 2)]
+	data := bytes.Repeat([]byte(unit), k)
+	_, _ = NewParser(data).Parse()
 	vReach("end")
 }
